@@ -126,6 +126,7 @@ type Frame struct {
 	loops    *loopInfo
 	inPanicDefers bool
 	deferredDirectly bool // this frame runs a function called by a defer statement
+	inRecoverBlock   bool // executing the synthetic recover block (return after a recovered panic)
 	loopCtxs map[*ssa.BasicBlock]*loopCtx
 }
 
@@ -434,7 +435,10 @@ func (fr *Frame) handleDeferredPanics(ps []exitRec) []exitRec {
 		rs.vars["panicking"] = nilIface()
 		// resume at the Recover block (returns the named results)
 		if fr.fn.Recover != nil {
+			// the return of the recover block is not a return statement of the source: no atreturn clauses
+			fr.inRecoverBlock = true
 			fr.execBlock(fr.fn.Recover, rs, map[*ssa.BasicBlock][]edgeState{}, nil)
+			fr.inRecoverBlock = false
 		} else {
 			var rv Val
 			res := fr.fn.Signature.Results()
@@ -518,9 +522,22 @@ func (fr *Frame) execBlock(b *ssa.BasicBlock, st *State, incoming map[*ssa.Basic
 				}
 				rv = a
 			}
-			if fr.isTop && ex.fc != nil && fr.ex.inHandler == 0 {
+			if fr.isTop && ex.fc != nil && fr.ex.inHandler == 0 && !fr.inRecoverBlock {
 				for _, cl := range ex.fc.AtReturn {
-					mk := func() *SpecEnv { return ex.specEnv(fr, st, ex.entry) }
+					mk := func() *SpecEnv {
+						env := ex.specEnv(fr, st, ex.entry)
+						// the values being returned: result (one result) or result0..resultN
+						res := fr.fn.Signature.Results()
+						for i, r := range x.Results {
+							if i < res.Len() {
+								env.vars[fmt.Sprintf("result%d", i)] = SVal{V: fr.val(r), T: res.At(i).Type()}
+								if res.Len() == 1 {
+									env.vars["result"] = SVal{V: fr.val(r), T: res.At(i).Type()}
+								}
+							}
+						}
+						return env
+					}
 					nUnsup := len(ex.cx.unsupported)
 					g, sk := mk().evalGoalSkolem(cl.Expr)
 					if len(ex.cx.unsupported) != nUnsup {
